@@ -13,12 +13,21 @@ import (
 	"google.golang.org/protobuf/reflect/protoreflect"
 )
 
+// propertyName maps a query path segment to a JSON property name: the name as
+// written wins, otherwise it is camel-cased (strcase does not agree with protoc
+// on every name, e.g. "a1b" becomes "a1B").
+func propertyName(root j5reflect.PropertySet, part string) string {
+	if root.HasProperty(part) {
+		return part
+	}
+	return strcase.ToLowerCamel(part)
+}
+
 func propertyAtPath(root j5reflect.Root, path string) (j5reflect.Property, error) {
 	parts := strings.Split(path, ".")
 	pathParts, tail := parts[:len(parts)-1], parts[len(parts)-1]
-	tail = strcase.ToLowerCamel(tail)
 	for _, part := range pathParts {
-		part = strcase.ToLowerCamel(part)
+		part = propertyName(root, part)
 		prop, err := root.GetProperty(part)
 		if err != nil {
 			return nil, status.Error(codes.InvalidArgument, fmt.Sprintf("unknown property %q", part))
@@ -42,7 +51,7 @@ func propertyAtPath(root j5reflect.Root, path string) (j5reflect.Property, error
 		}
 		return nil, status.Error(codes.InvalidArgument, fmt.Sprintf("property %q is not a container", part))
 	}
-	return root.GetProperty(tail)
+	return root.GetProperty(propertyName(root, tail))
 }
 
 // queryGoValue converts the text of a query parameter for the field types which
